@@ -195,7 +195,7 @@ impl Model {
         &mut self,
         dfa: &Dfa<S, L>,
         input: &[u8; N],
-        from: usize,
+        len: usize,
     ) -> (Option<Item>, usize) {
         let mut k = 0;
         while k < MAXB {
@@ -209,7 +209,7 @@ impl Model {
         let mut used = 0;
         let mut i = 0;
         while i < N {
-            if i >= from {
+            if i < len {
                 used += 1;
                 if let Some(item) = self.step(dfa, input[i]) {
                     return (Some(item), used);
@@ -310,26 +310,27 @@ pub fn step_case<const S: usize, const L: usize, const B: usize, const R: usize,
     std::mem::forget(t);
 }
 
-/// layer 2: one `decode(&mut &[u8])` call with `N` input bytes
-pub fn call_case<const S: usize, const L: usize, const B: usize, const R: usize, const CK: usize, const K: usize, const N: usize>() {
+/// layer 2: one `decode(&mut &[u8])` call with `N` input bytes (`NP1 == N + 1`: the backing
+/// array is never zero sized)
+pub fn call_case<const S: usize, const L: usize, const B: usize, const R: usize, const CK: usize, const K: usize, const N: usize, const NP1: usize>() {
     let dfa = Dfa::<S, L>::any();
     let (mut m, buf, res) = any_state::<S, L, B, R, CK, K>();
     let mut t = dfa.tokenizer();
     install(&mut t, &m, &buf, &res);
-    let input: [u8; N] = any();
+    let input: [u8; NP1] = any();
     let mut i = 0;
     while i < N {
         assume((input[i] as usize) < L);
         i += 1;
     }
-    let mut slice: &[u8] = &input;
+    let mut slice: &[u8] = &input[..N];
     let real = t.decode_slice(&mut slice);
-    let (want, used) = m.decode(&dfa, &input, 0);
-    witness!(want.is_some() && used == N, "item at the last input byte");
+    let (want, used) = m.decode(&dfa, &input, N);
+    witness!(want.is_some() || N + R == 0, "an item is produced");
     witness!(want.is_none(), "input exhausted without an item");
     assert!(same_item(&real, &want), "C03: decode returned a different item than the reference");
     assert!(N - slice.len() == used, "C03: decode consumed a different number of input bytes");
-    assert!(same_state(&t, &m), "C03: decode left a different state than the reference");
+    assert!(same_state(&t, &m), "C03: decode left a different state than the reference (state must survive between reads)");
     if real.is_none() {
         assert!(slice.is_empty(), "C02: decode reported nothing available with input left");
     }
@@ -337,87 +338,43 @@ pub fn call_case<const S: usize, const L: usize, const B: usize, const R: usize,
     std::mem::forget(t);
 }
 
-/// all items of `input`, fed through `decode` calls in the given chunks (`cut` positions)
-pub fn run_chunks<const S: usize, const L: usize, const N: usize>(
+/// all items the reference tokenizer produces for `input` (rescheduled bytes are scanned
+/// before further input, exactly as `decode` does); `T` bounds the number of byte scans and
+/// the harness asserts that it was enough
+pub fn run_model<const S: usize, const L: usize, const N: usize, const T: usize>(
     dfa: &Dfa<S, L>,
     input: &[u8; N],
-    cut1: usize,
-    cut2: usize,
 ) -> ([Item; MAXB], usize, Model) {
     let mut m = Model::start();
     let mut items = [Item::Tag(0); MAXB];
     let mut n = 0;
-    // three chunks: [0, cut1), [cut1, cut2), [cut2, N); each decoded until it reports None
-    let bounds = [(0, cut1), (cut1, cut2), (cut2, N)];
-    let mut c = 0;
-    while c < 3 {
-        let (lo, hi) = bounds[c];
-        let mut pos = lo;
-        let mut guard = 0;
-        while guard < 2 * N + 2 {
-            // decode over input[pos..hi]
-            let mut got = None;
-            let mut k = 0;
-            while k < MAXB {
-                if got.is_none() {
-                    if let Some(b) = m.res.pop() {
-                        got = m.step(dfa, b);
-                    }
-                }
-                k += 1;
-            }
-            let mut i = 0;
-            while i < N {
-                if got.is_none() && i >= pos && i < hi {
-                    pos += 1;
-                    got = m.step(dfa, input[i]);
-                }
-                i += 1;
-            }
-            if let Some(item) = got {
-                if n < MAXB {
-                    items[n] = item;
-                    n += 1;
-                }
-            }
-            guard += 1;
+    let mut pos = 0;
+    let mut t = 0;
+    while t < T {
+        let got = if let Some(b) = m.res.pop() {
+            m.step(dfa, b)
+        } else if pos < N {
+            pos += 1;
+            m.step(dfa, input[pos - 1])
+        } else {
+            None
+        };
+        if let Some(item) = got {
+            assert!(n < MAXB);
+            items[n] = item;
+            n += 1;
         }
-        c += 1;
+        t += 1;
     }
+    assert!(pos == N && m.res.n == 0, "C03 harness: scan bound T too small");
     (items, n, m)
-}
-
-/// layer 3a (model only): every 3-way split yields the same items and end state
-pub fn chunk_case<const S: usize, const L: usize, const N: usize>() {
-    let dfa = Dfa::<S, L>::any();
-    let input: [u8; N] = any();
-    let mut i = 0;
-    while i < N {
-        assume((input[i] as usize) < L);
-        i += 1;
-    }
-    let cut1: usize = any();
-    let cut2: usize = any();
-    assume(cut1 <= cut2 && cut2 <= N);
-    let (a, na, ma) = run_chunks(&dfa, &input, N, N);
-    let (b, nb, mb) = run_chunks(&dfa, &input, cut1, cut2);
-    witness!(na >= 2 && cut1 > 0 && cut1 < cut2 && cut2 < N, "several items, three non-empty chunks");
-    assert!(na == nb, "C03: number of items depends on read boundaries");
-    let mut i = 0;
-    while i < MAXB {
-        if i < na {
-            assert!(a[i] == b[i], "C03: items depend on read boundaries");
-        }
-        i += 1;
-    }
-    assert!(ma.q == mb.q && ma.buf == mb.buf && ma.res == mb.res, "C03: pending state depends on read boundaries");
 }
 
 /// layer 3b (model only): the items are the leftmost-longest tokenisation of the input,
 /// written directly from the definition: at each position take the longest recognised
 /// prefix; if none, the bytes before the failing byte form one raw item; a match that could
 /// still be extended by more input is not decided yet.
-pub fn munch_case<const S: usize, const L: usize, const N: usize>() {
+pub fn munch_case<const S: usize, const L: usize, const N: usize, const T: usize>() {
     let dfa = Dfa::<S, L>::any();
     let input: [u8; N] = any();
     let mut i = 0;
@@ -425,7 +382,7 @@ pub fn munch_case<const S: usize, const L: usize, const N: usize>() {
         assume((input[i] as usize) < L);
         i += 1;
     }
-    let (got, n_got, m) = run_chunks(&dfa, &input, N, N);
+    let (got, n_got, m) = run_model::<S, L, N, T>(&dfa, &input);
 
     let mut want = [Item::Tag(0); MAXB];
     let mut n_want = 0;
